@@ -31,8 +31,9 @@ theorem root_eq_last (H : α → α → α) (e : α) (leaves : List α) (hne : 0
     have := (List.getElem?_eq_none_iff.mp h)
     omega
 
-/-- **root_is_function_of_leaves**: the root is a function of the ordered leaf list (and `H`) alone:
-    `Root()` reads nothing else (the model has no other input).  Empty list ↦ `EmptyTrieHash`. -/
+/-- congruence of equality only (NOT registered as a property theorem): `Root()` reads nothing but the
+    ordered leaf list and `H` because the model has no other input; what the root IS is `nodes_shape`,
+    that it binds the leaves is `root_binds_leaves`. -/
 theorem root_is_function_of_leaves (H : α → α → α) (e : α) (l l' : List α) (h : l = l') :
     root H e l = root H e l' := by rw [h]
 
